@@ -81,6 +81,12 @@ def static_case(ctx, rng, idx):
     from hypergraphx.measures import s_centralities as sc
     import hypergraphx as hgx
 
+    if idx == 4 or (ctx.tier == "thorough" and idx % 800 == 12):
+        from ..gen import big_hypergraph
+
+        ctx.event("big-hypergraph")
+        static_eval(ctx, rng, idx, big_hypergraph(rng, sizes=(1, 2, 2, 3, 4), n=rng.randint(30, 50), m=rng.randint(60, 120)))
+        return
     h, uni = gen_hypergraph(rng)
     static_eval(ctx, rng, idx, h)
     from ..mutate import same_count_edit
